@@ -37,7 +37,7 @@ def _params(draw):
         "c": draw(st.sampled_from([1.0, 1.4, 0.5])),
         "A_sigma": draw(st.sampled_from([339.4, 50.0, 2000.0])),
         "A_ref": 500.0,
-        "G": draw(st.sampled_from([2 / 15, 0.01, 1.0])),
+        "G": draw(st.sampled_from([2 / 15, 0.01, 1.0, 8.0])),
         "K_p": draw(st.sampled_from([1.3, 2.0, 3.5])),
         "n_bins": N_BINS,
         "max_load_independently_for_nodes": True,
@@ -186,7 +186,8 @@ def _batch_cases(draw, tier):
     order = list(draw(st.permutations(range(n))))
     case["factors"] = [factors[i] for i in order]
     if draw(st.booleans()):
-        case["params"]["G"] = [draw(st.sampled_from([2 / 15, 0.01, 1.0, 0.3])) for _ in range(n)]
+        # small gradients (n_bm clipped to 1) and large ones (n_bm > 1 and different from point to point)
+        case["params"]["G"] = [draw(st.sampled_from([2 / 15, 0.01, 1.0, 0.3, 5.0, 12.0, 30.0])) for _ in range(n)]
     return case
 
 
@@ -226,6 +227,43 @@ def batch_independence(case, ctx):
     ctx.label("finite" if any_finite else "all_infinite")
 
 
+@st.composite
+def _batch_sequences(draw, tier):
+    case = draw(_batch_cases(tier))
+    n = len(case["factors"])
+    # a second batch in the same process: same parameters, same number of points, same largest point, other ratios
+    second = []
+    for f in case["factors"]:
+        second.append(f if f == 1.0 else draw(st.sampled_from([0.8, 0.6, 0.45, 0.25])))
+    case["factors2"] = second
+    return case
+
+
+@subcheck("C10", "batch_sequence", strategy=_batch_sequences, quick=24, thorough=800, shards=16,
+          doc="history of calls: a second batch with the same parameters, number of points and largest point but other load ratios still gives every point its single-run result (no state carried from call to call)")
+def batch_sequence(case, ctx):
+    p, seq, unit = case["params"], case["seq"], case["unit"]
+    if _on_class_edge(seq):
+        ctx.skip("a load or range of the sequence sits on a class edge")
+    base = [x * unit for x in seq]
+    any_finite = False
+    for k, factors in enumerate((case["factors"], case["factors2"])):
+        multi = [[f * x for x in base] for f in factors]
+        rb = assess(p, None, multi=multi)
+        if k == 0:
+            continue       # the first call only primes whatever state there may be
+        for j, f in enumerate(factors):
+            pj = dict(p)
+            if isinstance(p["G"], list):
+                pj["G"] = p["G"][j]
+            ra = assess(pj, multi[j])
+            any_finite = any_finite or _finite(ra)
+            compare_results(rb, j, ra, None, False, "second batch: point %d of factors %r after a batch with %r, base loads %r, params %r" % (
+                j, factors, case["factors"], base, p), ctx, "sequence")
+    if any_finite and case["factors"] != case["factors2"]:
+        ctx.nontrivial()
+
+
 # ---------------------------------------------------------------- (ii) insensitivity to non-reversal samples
 @st.composite
 def _refined_cases(draw, tier):
@@ -233,16 +271,15 @@ def _refined_cases(draw, tier):
     r = draw(c04._refined(tier))
     m = max(abs(x) for x in r["seq"])
     level = draw(st.sampled_from([0.4, 0.7, 1.0, 1.5]))
-    case["seq"], case["refined"], case["prepended"] = r["seq"][:12], None, r["prepended"]
-    # re-derive the refinement for the (possibly truncated) sequence: only use it if untouched
-    if len(r["seq"]) > 12:
-        case["seq"] = r["seq"]
-    case["refined"] = r["refined"]
+    case["seq"], case["refined"], case["prepended"] = r["seq"], r["refined"], r["prepended"]
+    if draw(st.integers(0, 3)) == 0 and not r["prepended"]:
+        # a long plateau at the very end (3-5 equal samples)
+        case["refined"] = r["refined"] + [r["refined"][-1]] * draw(st.integers(2, 4))
     case["unit"] = 2.0 ** math.floor(math.log2(level * case["params"]["R_m"] / case["params"]["c"] / m))
     return case
 
 
-@subcheck("C10", "sample_insensitivity", strategy=_refined_cases, quick=40, thorough=1500, shards=16,
+@subcheck("C10", "sample_insensitivity", strategy=_refined_cases, quick=64, thorough=1500, shards=16,
           doc="adding non-reversal samples / repeated values (also at the end and before the first sample) leaves lifetimes and verdicts unchanged")
 def sample_insensitivity(case, ctx):
     p, unit = case["params"], case["unit"]
